@@ -199,7 +199,9 @@ def _e2e_worker(job):
     tree, wid, seed, n = job[:4]
     fixed = job[4] if len(job) > 4 else []
     line = st.lists(st.sampled_from([b"x", b".", b"..", b"\r", b"a b", b"Received: q", b".x", b"\xe9", b""]), max_size=4).map(b"".join).map(vlib.jsonable)
-    scen = st.fixed_dictionaries({"lines": st.lists(line, max_size=8), "cuts": st.lists(st.integers(0, 400), max_size=2), "second": st.booleans()})
+    scen = st.fixed_dictionaries({"lines": st.lists(line, max_size=8), "cuts": st.lists(st.integers(0, 400), max_size=2), "second": st.booleans(),
+                                  # control/databytes around the size of the message: a message over the limit may be refused, never cut short
+                                  "db": st.one_of(st.none(), st.none(), st.integers(1, 40))})
     stats = vlib.Stats()
     h = sandbox.Home(tree, os.path.join(vlib.scratch_root(), "c05e2e-%d" % wid))
     h.control("me", "me.example\n")
@@ -212,6 +214,10 @@ def _e2e_worker(job):
             stats.slack += 1          # '.'+bare-CR line: unspecified (see C05 slack)
             return None
         payload = _e2e_encode(lines)
+        exp = b"".join(l + b"\n" for l in lines)
+        db = sc.get("db")
+        h.control("databytes", ("%d\n" % db) if db else None)
+        over = bool(db) and len(exp) > db
         rest = b"NOOP\r\n" + (b"MAIL FROM:<b@x>\r\nRCPT TO:<c@me.example>\r\nDATA\r\n" if sc["second"] else b"")
         env = h.env(role="smtpd", uid=h.uids["d"], trace=False, QMAILQUEUE=sandbox.STANDIN, TCPREMOTEIP="1.2.3.4",
                     **sandbox.standin_env(rec, read="01", qq=True))
@@ -241,15 +247,26 @@ def _e2e_worker(job):
                 return None
             codes = [l[:3] for l in out.split(b"\r\n") if l]
             want = [b"250", b"250"] + ([b"250", b"250", b"354", b"250"] if sc["second"] else []) + [b"221"]
-            stats.case(scenario=sc, nontrivial=any(b"." in l or b"\r" in l for l in lines), classes=["e2e"] + (["e2e_second_message"] if sc["second"] else []))
+            stats.case(scenario=sc, nontrivial=any(b"." in l or b"\r" in l for l in lines), classes=["e2e"] + (["e2e_second_message"] if sc["second"] else []) +
+                       (["e2e_over_databytes"] if over else []))
+            refused = over and codes[:1] and codes[0][:1] == b"5"
+            if refused:
+                codes = [b"250"] + codes[1:]          # a message over control/databytes may be refused (552): then nothing of it is stored
+            if sc["second"] and db and len(b"second\n") > db and len(codes) == len(want) and codes[5][:1] == b"5":
+                codes = codes[:5] + [b"250"] + codes[6:]
+                second_refused = True
+            else:
+                second_refused = False
             if codes != want:
                 return "reply sequence after the payload is %r, expected %r (the bytes after CRLF.CRLF are the next commands)" % (codes, want)
             recs = [r for r in sandbox.standin_records(rec) if r.get("commit")]
-            if len(recs) != (2 if sc["second"] else 1):
-                return "%d messages committed, expected %d" % (len(recs), 2 if sc["second"] else 1)
+            nexp = (2 if sc["second"] else 1) - (1 if refused else 0) - (1 if second_refused else 0)
+            if len(recs) != nexp:
+                return "%d messages committed, expected %d" % (len(recs), nexp)
+            if refused:
+                return None
             body = recs[0]["fd0"]
             nl = body.find(b"\n", body.find(b"\n") + 1) + 1      # the Received field is two lines
-            exp = b"".join(l + b"\n" for l in lines)
             if body[nl:] != exp:
                 return "committed body %r differs from the transmitted lines %r" % (body[nl:][:80], exp[:80])
             return None
